@@ -985,11 +985,13 @@ func (e *c15Env) report(root int, path []int, cutFrom int, res c15Result) {
 		}
 	}
 	seen := map[string]bool{}
+	e.rep.Count("violating_transitions", 1)
 	for _, v := range res.Vios {
 		if seen[v.Kind+"|"+v.Key] {
 			continue
 		}
 		seen[v.Kind+"|"+v.Key] = true
+		e.rep.Count("violations_of_kind_"+v.Kind, 1)
 		e.rep.Violation(v.Kind, v.Key, fmt.Sprintf("root=%s path=%v\n  %s", e.roots[root].Name, e.names(path), v.Detail), cs)
 	}
 }
@@ -1026,6 +1028,7 @@ func c15Run(t *testing.T, prop string) {
 		seenNames[c.Name] = true
 	}
 	rep.Max("max_menu_commands", int64(len(e.menu)))
+	rep.Max("max_roots", int64(len(e.roots)))
 	// every registered command type must be in the menu
 	inMenu := map[proto2.Command_Type]bool{}
 	for _, c := range e.menu {
